@@ -335,7 +335,10 @@ class SimEnv:
                 it = made.get(len(self.results) - 1)
                 if it is None:
                     csz = float(cs) if self.cfg.float_chunks else cs
-                    it = pool.imap(data, csz) if ordered else pool.imap_unordered(data, csz)
+                    if cs == 1 and len(self.results) % 2:
+                        it = pool.imap(data) if ordered else pool.imap_unordered(data)  # the default chunk size is 1
+                    else:
+                        it = pool.imap(data, csz) if ordered else pool.imap_unordered(data, csz)
                 first = True
                 for x in it:
                     res.append(x)
